@@ -117,3 +117,35 @@ Example C12_std_plain_example :
                           (Quant Universal (0, 12%N) (Pred (PUser 0 3%N 2) [Var 0 12%N; Var 0 12%N]))))
   = true.
 Proof. vm_compute. reflexivity. Qed.
+
+(* ... and for EVERY option combination OW of StandardLexWriter (drop_parens, identity_infix,
+   max_infix: Lang/WriteStd.v write_stdo).  negid_ok OW s: s has no negated identity, or
+   identity_infix is off (the `a != b` form is then not produced). *)
+Theorem C12_standard_roundtrip_opts : forall T S O OW e, table_ok T = true ->
+  std_agree_b T (patch_exist S e) O = true ->
+  forall s, roundtrippable s = true -> negid_ok OW s = true -> no_exist s = true ->
+  exists w, write_stdo OW S s = Some w /\
+            parse_std_opts (cfg_of T false) O (decls s) w = (OK s, decls s) /\
+            parse_std_opts (cfg_of T true) O [] w = (OK s, decls s).
+Proof. exact std_roundtrip_opts_plain. Qed.
+Print Assumptions C12_standard_roundtrip_opts.
+
+Theorem C12_write_standard_injective_opts : forall T S O OW e, table_ok T = true ->
+  std_agree_b T (patch_exist S e) O = true ->
+  forall s1 s2 w, roundtrippable s1 = true -> negid_ok OW s1 = true -> no_exist s1 = true ->
+  roundtrippable s2 = true -> negid_ok OW s2 = true -> no_exist s2 = true ->
+  write_stdo OW S s1 = Some w -> write_stdo OW S s2 = Some w -> s1 = s2.
+Proof. exact write_stdo_injective_plain. Qed.
+Print Assumptions C12_write_standard_injective_opts.
+
+(* the default options are the writer of C12_standard_roundtrip_plain *)
+Theorem C12_write_stdo_default : forall S s, write_stdo wopts_default S s = write_std S s.
+Proof. exact write_stdo_default. Qed.
+Print Assumptions C12_write_stdo_default.
+
+(* non-vacuity: with identity_infix off a negated identity inside an infixed ternary context is covered *)
+Example C12_negid_ok_example :
+  negid_ok {| wo_drop := false; wo_idinfix := false; wo_maxinfix := 4 |}
+    (Bin Conjunction (Un Negation (Pred (PSys Identity) [Const 0 0%N; Const 1 0%N]))
+                     (Pred (PUser 1 0%N 3) [Const 0 0%N; Const 1 0%N; Const 2 0%N])) = true.
+Proof. vm_compute. reflexivity. Qed.
